@@ -638,7 +638,10 @@ def run(chk):
             if re.search(r"upper_left_position\(|get_first_visible_line\(|get_first_editable_line\(", val) and not re.search(r"[-+] ", val.replace("get_first_visible_line(&*buf) +", "")):
                 safe = "upper_left_position(" in val or val.strip("()").startswith("get_first_")
             # followed by limit_caret_pos (or a callee that ends clean) on every path to a return?
-            cleaners = {cb for cb, t in b.calls() if (t["callee"].get("resolved") or "") in ends_clean or (t["callee"].get("resolved") or "") in REVIEWED_PRIMS}
+            # (the two check_scrolling helpers only scroll when the row has left the *editable* region: they bring it back to the margin,
+            # which is on the screen only if the margin is - not a clamp to the visible rows, so they do not count here; seed C09/14)
+            cleaners = {cb for cb, t in b.calls() if (t["callee"].get("resolved") or "") in ends_clean
+                        or ((t["callee"].get("resolved") or "") in REVIEWED_PRIMS and "check_scrolling_on_caret" not in (t["callee"].get("resolved") or ""))}
             if not safe:
                 if via_call:
                     # the store happens in the terminator of block bi: start from its successors
